@@ -7,6 +7,17 @@ import os
 VERIF = os.path.dirname(os.path.dirname(os.path.abspath(__file__)))
 
 CHECKS = {
+    "C11": dict(
+        technique="runtime monitor: state recovery from outputs (ECB-decrypting CTR keystream to recover counter blocks; ChaCha20 keystream vs model at the history-implied position; captured HPKE nonces) over limit-crossing call histories",
+        text=("CTR keystream (encrypt of zeros) of every block cipher is ECB-decrypted block by block to recover the counter block that produced it: prefix/suffix "
+              "constant, counter = initial+i mod 2^(8w) in the declared byte order, all recovered blocks pairwise distinct per object; counter widths 1 and 2 bytes "
+              "(3 in thorough) are run to the limit for real with byte-wise/127/128/129/one-call-crossing/exact-then-one patterns and initial values around the wrap, "
+              "OverflowError must come exactly from the call needing more than 2^(8w) blocks; wide counters are driven through zero and across every carry.  ChaCha20/"
+              "XChaCha20 (8/12/24-byte nonces) is compared with the model after seek() to the last blocks, across the limit, after the exception (no earlier keystream may "
+              "re-appear) and for seek() beyond the limit.  CCM's nonce-dependent length limit is hit with data (nonce 13; nonce 12 in thorough) and by declaration.  HPKE "
+              "nonces are captured at the AEAD constructor: pairwise distinct, = base xor seq, sealing refused at exhaustion."),
+        note="Trusted: single-block ECB decryption (cross-checked against ref.ciphers per object), ref.ciphers ChaCha20. Limits >= 2^32 blocks (wide CTR counters, Salsa20, GCM) are not reachable with data; HPKE exhaustion by moving the Python sequence attribute.",
+        ref="DESIGN.md §4 C11"),
     "C14": dict(
         technique="runtime monitor: differential oracle (exact Python integers; primes certified by construction) over hostile operand workloads on the three integer back-ends",
         text=("Every operation of the Integer API is executed on IntegerGMP, IntegerCustom and IntegerNative with operands concentrated on limb "
